@@ -8,7 +8,6 @@ import tn
 
 HEADER = "From Qib Require Import TN.TNCheck.\n"
 
-SIG_LEAF_PERM = "contract_tree:single-leaf-scaffold:root-permutation-ignored"
 SIG_LEAF_TRACE = "contract_tree:single-leaf-scaffold:self-trace-assertion"
 SIG_LEAF_DIAG = "contract_tree:single-leaf-scaffold:two-legs-on-one-open-bond-refused"
 SIG_EMPTY = "contract_einsum:network-without-tensors-and-open-axes:einsum-without-operands"
@@ -33,7 +32,8 @@ DIRECTED = [
                   ], "bonds": [[6, [4, -1, -1, -1]], [2, [-1, 4, -1]], [9, [-1, -1]], [11, [-1, -1]], [-3, [-1, -1]]],
       "data": {"t": D([2, 3], [1, 2, 3, -1, 0, 2])}}),
     ("idle-wires-only-mixed-dimensions", {"tensors": [[-1, [3, 3, 3, 1, 2, 1, 2], [5, 5, 5, 0, 1, 0, 1], None]], "bonds": None, "data": {}}),
-    # single tensor, open axes a non-identity permutation of its legs (defect #7)
+    # single tensor, open axes a non-identity permutation of its legs (repaired defect: the root permutation
+    # was applied to the leaf's index lists only) - contract_tree must be right
     ("single-leaf-permuted",
      {"tensors": [[8, [2, 1, 3], [0, 1, 2], "a"], [-1, [3, 2, 1], [2, 0, 1], None]], "bonds": None,
       "data": {"a": D([2, 1, 3], [1, 2, 3, 4, 5, 6])}}),
@@ -56,6 +56,15 @@ DIRECTED = [
     ("single-leaf-permuted-but-all-dimensions-one",
      {"tensors": [[7, [1, 1], [3, 6], "a"], [-1, [1, 1, 1], [6, 3, 3], None]], "bonds": None,
       "data": {"a": D([1, 1], [2])}}),
+    ("single-leaf-permuted-4d-with-shared-open-bonds",
+     {"tensors": [[2, [2, 3, 2, 1], [5, 6, 7, 8], "a"], [-1, [1, 2, 3, 2, 3, 1], [8, 7, 6, 5, 6, 8], None]], "bonds": None,
+      "data": {"a": D([2, 3, 2, 1], [((7 * i + 3) % 11) - 5 for i in range(12)])}}),
+    ("single-leaf-permuted-cyclic-complex",
+     {"tensors": [[-3, [3, 2, 2], [1, 2, 3], "a"], [-1, [2, 2, 3], [2, 3, 1], None]], "bonds": None,
+      "data": {"a": D([3, 2, 2], list(range(1, 13)), [(-1) ** i * (i % 4) for i in range(12)])}}),
+    ("single-leaf-transposed-matrix",
+     {"tensors": [[0, [2, 3], [0, 1], "a"], [-1, [3, 2], [1, 0], None]], "bonds": None,
+      "data": {"a": D([2, 3], [1, 2, 3, 4, 5, 6])}}),
     ("wrapped-tensor",
      {"tensors": [[0, [2, 1, 2, 3], [0, 1, 2, 3], "a"], [-1, [2, 1, 2, 3], [0, 1, 2, 3], None]],
       "bonds": [[0, [-1, 0]], [1, [-1, 0]], [2, [-1, 0]], [3, [-1, 0]]],
@@ -101,24 +110,26 @@ def leaf_root_class(stn, tid):
     `stn` whose only scaffold leaf is `tid` - decided from the network description alone, never
     from what the implementation returned:
       'diag'  two legs of the tensor lie on one open bond (RuntimeError 'inconsistency when tracking'),
-      'trace' a leg of the tensor lies on a bond that is not open (assert c == tree.ndim),
-      'perm'  otherwise, when the legs are not met in leg order along the open axes (the root
-              permutation is applied to the leaf's index lists but not to its stored tensor).
-    Empty set: the open axes meet the legs in order - contract_tree must be right."""
+      'trace' a leg of the tensor lies on a bond that is not open (assert c == tree.ndim).
+    Empty set: every leg lies on its own open bond, in any order - contract_tree must be right (the
+    stored tensor of a leaf root is transposed by the root permutation)."""
     t, vt = stn.tensors[tid], stn.tensors[-1]
     cls = set()
     if any(t.bids.count(b) >= 2 for b in set(vt.bids)):
         cls.add("diag")
     if any(b not in vt.bids for b in t.bids):
         cls.add("trace")
-    if not cls:
-        first = []
-        for b in vt.bids:
-            if b in t.bids and t.bids.index(b) not in first:
-                first.append(t.bids.index(b))
-        if first != sorted(first):
-            cls.add("perm")
     return cls
+
+
+def leaf_root_permuted(stn, tid):
+    """the open axes do not meet the legs of the only tensor in leg order (evidence only)"""
+    t, vt = stn.tensors[tid], stn.tensors[-1]
+    first = []
+    for b in vt.bids:
+        if b in t.bids and t.bids.index(b) not in first:
+            first.append(t.bids.index(b))
+    return first != sorted(first)
 
 
 def has_idle_bond(stn):
@@ -209,23 +220,25 @@ def probe_tree(net, ref, scaffold, rng=None):
             good = dense.shape == ref.shape and np.array_equal(dense, ref)
     except Exception:
         good = False
-    if lcls and not (lcls == {"perm"}):
+    if lcls:
         # the implementation must raise on these classes (see above); returning is a new behaviour
         fails.append(("contract_tree:single-leaf-scaffold:returns-on-trace-or-diagonal", "defining sum or the known refusal",
                       "returned; value %s" % ("right" if good else "wrong")))
         status = "wrong" if not good else "known-benign"
     elif not good:
-        if lcls == {"perm"}:
-            fails.append((SIG_LEAF_PERM, "defining sum", "axes not permuted"))
-            status = "known"
-        else:
-            fails.append(("contract_tree:not-the-defining-sum", "defining sum", "differs"))
-            status = "wrong"
-    elif lcls == {"perm"}:
-        # the unpermuted leaf tensor happens to equal the permuted one (dimensions 1 / symmetric data):
-        # no violation on this input, but the tree is outside the checker theorem's domain
-        status = "known-benign"
+        fails.append(("contract_tree:not-the-defining-sum", "defining sum", "differs"))
+        status = "wrong"
     return (tree, amap, cnt), fails, status
+
+
+def lay_out_leaves(tree, tensor_dict):
+    """perform_tree_contraction reads the entry of a leaf as laid out by the leaf's idxout (range(ndim) as
+    built; permute_axes only relabels a leaf).  contract_tree permutes a single-leaf root, so a dictionary
+    built from the stored tensors has to be transposed accordingly before the tree is contracted by hand."""
+    for _, nd in tn.tree_nodes(tree):
+        if nd.is_leaf and nd.ndim and [int(i) for i in nd.idxout] != list(range(nd.ndim)):
+            tensor_dict[nd.tid] = np.transpose(tensor_dict[nd.tid], [int(i) for i in nd.idxout])
+    return tensor_dict
 
 
 def probe_permute(net, tree, cnt, rng, nterm=None, amap=None):
@@ -240,7 +253,7 @@ def probe_permute(net, tree, cnt, rng, nterm=None, amap=None):
     perm = list(range(node.ndim))
     rng.shuffle(perm)
     before = tn.tree_term(tree)
-    tensor_dict = {t.tid: np.asarray(net.data[t.dataref]) for t in net.net.tensors.values() if t.tid != -1}
+    tensor_dict = lay_out_leaves(tree, {t.tid: np.asarray(net.data[t.dataref]) for t in net.net.tensors.values() if t.tid != -1})
     node.permute_axes(np.array(perm))
     after = tn.tree_term(tree)
     if node.is_leaf:
@@ -261,9 +274,10 @@ def probe_permute(net, tree, cnt, rng, nterm=None, amap=None):
         fails.append(("permute_axes:exception:" + type(e).__name__, "unchanged", repr(e)))
     term = "CPerm %s %s %s (Some %s)" % (before, ct.lst([ct.b(p == 0) for p in path]), tn.nl(perm), after)
     terms = [term]
-    if not node.is_leaf and nterm is not None:
-        # the permuted tree must still be accepted by the verified checker (=> same dense tensor);
-        # a permutation of the root moves the legs the axes map points to
+    if nterm is not None:
+        # the permuted tree must still be accepted by the verified checker (=> same dense tensor; for a
+        # leaf: with its dictionary entry transposed as above); a permutation of the root moves the legs
+        # the axes map points to
         am = [perm.index(a) for a in amap] if len(path) == 0 else list(amap)
         terms.append("CChk %s %s %s true" % (nterm, after, tn.nl(am)))
     return terms, fails
@@ -309,7 +323,7 @@ def probe_history(desc, scaffold, rng):
                 fails.append(("contract_tree:call-%d-on-the-same-network-differs" % rnd, "defining sum", "differs"))
         amap = [int(a) for a in am]
         # ---- the tree by hand, repeatedly with the same dictionary
-        tdict = {t.tid: np.asarray(net.data[t.dataref]) for t in stn.tensors.values() if t.tid != -1}
+        tdict = lay_out_leaves(tree, {t.tid: np.asarray(net.data[t.dataref]) for t in stn.tensors.values() if t.tid != -1})
         snap = _snap_dict(tdict)
         r0 = np.asarray(perform_tree_contraction(tree, tdict))
         if not _dict_unchanged(tdict, snap):
@@ -451,14 +465,18 @@ def run(ctx):
     ctx.assumes.append("numpy.einsum is modelled by its defining sum for ANY number of labels and operands; the real numpy.einsum "
                        "(optimize=True) has 52 index letters, so contract_einsum raises on networks with more than 52 bonds "
                        "(KNOWN FINDING, probed on every run); C07_einsum_answers is a statement about the model")
-    ctx.assumes.append("model = /repo (incl. its commit f430c25 'contract_einsum looked up an einsum label in a list of positions') with proposed_fixes/C07-is-consistent-leg-count.diff; "
+    ctx.assumes.append("model = /repo (incl. its commits f430c25 'contract_einsum looked up an einsum label in a list of positions', 0a2ab96 is_consistent leg count) "
+                       "with proposed_fixes/C07-single-leaf-root-transpose.diff (contract_tree transposes the stored tensor of a single-leaf root by the root permutation; "
+                       "the model's tree_eval reads a leaf's dictionary entry as the stored tensor laid out by the leaf's idxout); "
                        "tensor data are ring elements (exact arithmetic); the tree path is proved through a verified checker (check_root_sound) executed in Coq on "
                        "every tree of the run (the universal theorem about the builder is not proved)")
     ctx.trusted.append("TN translation (gen/tn.py -> Run.GenTN, fail-closed): merge's fresh-id arithmetic / join validation / del_axes / kept axes, "
                        "the preconditions of rename_tensor, rename_bond, SymbolicBond, SymbolicTensor.transpose, every `return False` condition of "
-                       "is_consistent, the first tree id and bump rule, as_einsum's sort key and axes-map rule are regenerated from symbolic_network.py "
-                       "and proved equal to what the model uses (C07_source_*, C08_source_*); PINNED by exact source text, not translated: the loop "
-                       "skeleton of is_consistent, its pair-repetition test, as_einsum's first-occurrence rule, transpose's distinctness test; "
+                       "is_consistent, the first tree id and bump rule, as_einsum's sort key and axes-map rule, rename_tensor's guard on the virtual tensor and its "
+                       "delegation to _rename_tensor, transpose's normalisation of negative axes / permutation test / selection, merge's dimension test are "
+                       "regenerated from symbolic_network.py and proved equal to what the model uses (C07_source_*, C08_source_*); PINNED by exact source text, "
+                       "not translated: the loop skeleton of is_consistent, its pair-repetition test, as_einsum's first-occurrence rule, the statement order of "
+                       "transpose and of merge's validation loop; "
                        "all loops (rename, merge_tensors/bonds, get_bond_axes, as_einsum unification/condensation, tree builder) stay hand-modelled")
     ctx.rules.append("random consistent networks (0-6 tensors, degree<=4, bond dims 1-3, hyper-bonds<=5 legs, multi-edges, self-traces, "
                      "shared open bonds, identity wires, negative ids) with small Gaussian-integer data; open-structure networks (0-2 tensors, several identity wires at "
@@ -549,8 +567,11 @@ def run(ctx):
             add("CTree %s %s %s (Some %s) %s" % (
                 nterm, dterm, tn.scaffold_term(sc), ct.pair(tn.tree_term(tree), tn.nl(amap), tn.dense_term(cnt)),
                 "(Some %s)" % tn.dense_term(ref) if status == "ok" else "None"), dict(tinp, kind="tree"))
-            if status in ("known", "wrong", "known-benign"):
-                # the verified checker must refuse a tree whose value is not the defining sum
+            if isinstance(sc, int) and status == "ok" and leaf_root_permuted(net.net, sc):
+                ctx.count("single_leaf_root_permuted_ok")
+            if isinstance(sc, int) and leaf_root_class(net.net, sc):
+                # a single-leaf tree with a self-trace / a diagonal is outside the checker's domain: if the
+                # implementation returns one at all (a VIOLATION above), the verified checker must refuse it
                 add("CChk %s %s %s false" % (nterm, tn.tree_term(tree), tn.nl(amap)), dict(tinp, kind="checker-rejects"))
                 ctx.count("checker_rejects_wrong_tree")
             if rng.random() < (0.25 if len(scaffolds) > 20 else 1.0):
